@@ -104,4 +104,61 @@ def udptlRecv (buf : Array UInt8) : Cur (List Nat) := do
   let _nred ← loopM (udptlRedBody buf) (n + 1) (4 + pLen, 0)
   if seq = 1 then pure [pLen, foldA primary] else pure []
 
+/-! ### UDPTL receive buffer (`UdtlReceiveBuffer::try_deliver` and helpers, udptl.rs:236-300) — whole histories -/
+
+structure UBuf where
+  expected : Nat := 1                       -- u16
+  buffer : List (Nat × Nat) := []           -- BTreeMap<u16, Vec<u8>> as (seq, payload length)
+  maxSize : Nat := 128
+  received : Nat := 0
+  lost : Nat := 0
+  recovered : Nat := 0
+
+def UBuf.remove (u : UBuf) (k : Nat) : UBuf := { u with buffer := u.buffer.filter (fun e => decide (e.1 ≠ k)) }
+def UBuf.has (u : UBuf) (k : Nat) : Bool := u.buffer.any (fun e => decide (e.1 = k))
+/-- `if (buffer.len() as u16) < max_size { buffer.insert(seq, primary) }` -/
+def UBuf.bufferedInsert (u : UBuf) (seq len : Nat) : UBuf :=
+  if u.buffer.length % 65536 < u.maxSize then { u with buffer := (seq, len) :: (u.remove seq).buffer } else u
+/-- `buffer.remove(&expected)` hit: advance -/
+def UBuf.popExpected (u : UBuf) : UBuf :=
+  { (u.remove u.expected) with expected := (u.expected + 1) % 65536, recovered := u.recovered + 1 }
+def UBuf.get (u : UBuf) (k : Nat) : Nat := ((u.buffer.find? (·.1 = k)).map (·.2)).getD 0
+
+/-- `while self.buffer.remove(&self.expected_seq).is_some() { expected += 1; recovered += 1 }` -/
+def flushContiguousBody (u : UBuf) : Cur (UBuf ⊕ UBuf) :=
+  if u.has u.expected then
+    pure (.inl u.popExpected)
+  else pure (.inr u)
+
+def flushContiguous (u : UBuf) : Cur UBuf := loopM flushContiguousBody (u.buffer.length + 1) u
+
+/-- `cleanup_stale`: drop entries `≥ expected` whose wrapped gap is in `[32, 32768)` -/
+def cleanupStale (u : UBuf) : UBuf :=
+  let stale := u.buffer.filter fun e => e.1 ≥ u.expected ∧ (e.1 + 65536 - u.expected) % 65536 ≥ 32 ∧ (e.1 + 65536 - u.expected) % 65536 < 32768
+  { u with buffer := u.buffer.filter (fun e => ¬ stale.any (·.1 = e.1)), lost := u.lost + stale.length }
+
+/-- `try_deliver(seq, primary, _)`; result `none` or `some len` -/
+def tryDeliver (u : UBuf) (seq len : Nat) : Cur (Option Nat × UBuf) := do
+  let u : UBuf := { u with received := u.received + 1 }
+  if seq < u.expected ∧ (u.expected + 65536 - seq) % 65536 < 16384 then pure (none, u) else
+  if seq = u.expected then
+    let u ← flushContiguous { u with expected := (u.expected + 1) % 65536 }
+    pure (some len, cleanupStale u)
+  else if seq > u.expected then
+    let u := u.bufferedInsert seq len
+    if u.has u.expected then
+      let d := u.get u.expected
+      let u ← flushContiguous u.popExpected
+      pure (some d, u)
+    else pure (none, u)
+  else pure (none, u)
+
+/-- a whole history of `(seq, len)` deliveries; digest per step `[result+1 or 0, expected, buffered, lost, recovered]` -/
+def deliverRun : UBuf → List (Nat × Nat) → Cur (List (List Nat))
+  | _, [] => pure []
+  | u, p :: rest => do
+    let r ← tryDeliver u p.1 p.2
+    let more ← deliverRun r.2 rest
+    pure ([match r.1 with | none => 0 | some l => l + 1, r.2.expected, r.2.buffer.length, r.2.lost, r.2.recovered] :: more)
+
 end RtcModel.C07.Media
